@@ -44,7 +44,7 @@ type c04Config struct {
 
 func init() {
 	register(&Prop{ID: "C04", Run: c04Run,
-		Rule: "pairs of root containers A, B over a shared 6-key pool (B independent, or A after 1-4 local edits: key added/removed, leaf changed, kind swapped, list grown/shrunk/permuted), nulls with probability 0.2, lists of containers and lists of lists, both list strategies, B optionally sealed; overlay cases add 2-4 such documents as layers and read Merged(opts); config cases send defaults plus 1-3 override sources (YAML file, JSON file, map, dom container) through fluent.ConfigHelper. A case is non-trivial when the two sides (some two layers / sources) share at least one key; distinct = distinct canonical case JSON (hash).",
+		Rule: "pairs of root containers A, B over a shared 6-key pool (B independent, or A after 1-4 local edits: key added/removed, leaf changed, kind swapped, list grown/shrunk/permuted), nulls with probability 0.2, lists of containers and lists of lists, both list strategies, B optionally sealed; overlay cases add 2-4 such documents as layers and read Merged(opts); heap-merge cases build A and B (or 1-3 overlay layers) in one of six ways (FromMap, AddValue/ListNode with own or shared nil leaves, AddContainer/AddList/Set/Append, subtrees shared inside and between the documents), encode the real object graph as an explicit heap by pointer identity, Merge / Merged, and compare the result's sharing map (which result node is which input object / a new object) with the heap model, snapshot the inputs pointer for pointer, then write in place to the merged containers of the result; config cases send defaults plus 1-3 override sources (YAML file, JSON file, map, dom container) through fluent.ConfigHelper. A case is non-trivial when the two sides (some two layers / sources) share at least one key; distinct = distinct canonical case JSON (hash).",
 		Assumptions: []string{
 			"scalars are NaN-free and -0-free; a leaf is null iff its Go value is nil (wire scalar {nil,<nil>})",
 			"keys come from a path-safe pool (no key ends in an index group: the API invariant discussed under D26)",
@@ -111,6 +111,8 @@ func c04Run(c *Ctx) {
 		}
 		c.Do("config", c04Config{Defaults: def, Sources: srcs})
 	}
+	// pointer level: the real object graph against the heap model's sharing map (heap_share.go)
+	heapMergeGen(c, g, second, opt, c.N(900))
 	if c.Thorough() && !c.searchMode {
 		all := c04EnumDocs()
 		c.Note("exhaustive scope: %d root containers of size <= 4 over keys {a,b}; all ordered pairs x both strategies", len(all))
@@ -311,6 +313,8 @@ func c04YamlRT(v any) (any, error) {
 
 func c04Eval(c *Ctx, kind string, raw []byte) {
 	switch kind {
+	case "heap-merge":
+		heapMergeEval(c, raw)
 	case "pair":
 		var p c04Pair
 		if err := json.Unmarshal(raw, &p); err != nil {
